@@ -2,10 +2,13 @@
 package c09
 
 import (
+	"bytes"
+	"compress/gzip"
 	"context"
 	"fmt"
 	"os"
 	"path/filepath"
+	"strings"
 	"sync"
 	"sync/atomic"
 
@@ -135,6 +138,9 @@ type Scenario struct {
 	Name  string
 	Make  func() []Body // fresh bodies (and fresh shared objects) for one execution
 	After func() string // optional: observation of shared objects after all bodies finished
+	// Free: every body is a self-contained evaluation (no object shared through Go), so any number of copies
+	// may run at once and each still has to return what it returns alone: the free-running harness compares
+	Free bool
 }
 
 func a() *StructA { return &StructA{F: 41, Name: "x", In: Inner{N: 7}, Items: []int{1, 2}} }
@@ -170,7 +176,7 @@ func Cleanup() {
 }
 
 func Scenarios() []Scenario {
-	return []Scenario{
+	return append([]Scenario{
 		{Name: "first conversion of two struct types (global) ", Make: func() []Body {
 			return []Body{
 				evalBody("s.F + 1", risor.WithGlobal("s", a())),
@@ -295,7 +301,46 @@ for i := range 3 { acc += mk(i)()() }
 		}},
 		sharedCode(),
 		clones(),
+	}, codecScenarios()...)
+}
+
+// codecScenarios: two evaluations use the same codec at once, each after a decode of a damaged input has
+// failed in it (whatever a codec keeps between calls - a pooled reader, a scratch buffer - has been through
+// its error path) and with a payload of its own that is large enough for the two to overlap when they run free.
+func codecScenarios() []Scenario {
+	var truncated []byte
+	{
+		var buf bytes.Buffer
+		w := gzip.NewWriter(&buf)
+		w.Write([]byte(strings.Repeat("damaged stream ", 4000)))
+		w.Close()
+		truncated = buf.Bytes()[:buf.Len()/2]
 	}
+	type cd struct {
+		name string
+		bad  any
+	}
+	var out []Scenario
+	for _, c := range []cd{{"gzip", string(truncated)}, {"base64", "%%%"}, {"base32", "%%%"}, {"hex", "zz"}, {"json", "{"}, {"csv", "\"a"}, {"urlquery", "%zz"}} {
+		c := c
+		out = append(out, Scenario{Name: "two evaluations use the " + c.name + " codec after a failed decode", Free: true, Make: func() []Body {
+			var bodies []Body
+			for k := 0; k < 2; k++ {
+				data := strings.Repeat(fmt.Sprintf("payload %d of %s;", k, c.name), 6000+1000*k)
+				src := `r1 := try(func() { return string(decode(bad, codec)) }, func(e) { return "failed" })
+enc := encode(data, codec)
+r2 := try(func() { return string(decode(bad, codec)) }, func(e) { return "failed" })
+dec := decode(enc, codec)
+[r1, r2, len(enc), string(dec) == data || dec == data || dec == [[data]], len(string(dec))]`
+				if c.name == "csv" {
+					src = strings.Replace(src, "encode(data, codec)", "encode([[data]], codec)", 1)
+				}
+				bodies = append(bodies, evalBody(src, risor.WithGlobal("bad", c.bad), risor.WithGlobal("data", data), risor.WithGlobal("codec", c.name)))
+			}
+			return bodies
+		}})
+	}
+	return out
 }
 
 const sharedSrc = "k := 3\nfunc mk(a) { return func(b) { return a * k + b } }\nfs := [mk(1), mk(2)]\n[fs[0](1), fs[1](2), [1, 2, 3].map(func(x) { x * k })]"
